@@ -115,6 +115,10 @@ impl Clock {
         tokio::time::advance(d).await;
         self.elapsed += d;
     }
+    /// Whole ticks (of `TICK`) elapsed.
+    pub fn ticks(&self) -> u64 {
+        (self.elapsed.as_millis() / TICK.as_millis()) as u64
+    }
     /// Neither clock moved on its own (no auto-advance, no wall clock leak).
     pub fn in_step(&self) -> bool {
         self.t0.elapsed() == self.elapsed && self.s0.elapsed() == self.elapsed
@@ -582,6 +586,12 @@ pub struct DgramSock {
     idx: usize,
 }
 
+impl std::fmt::Debug for DgramNet {
+    fn fmt(&self, f: &mut std::fmt::Formatter<'_>) -> std::fmt::Result {
+        f.write_str("DgramNet")
+    }
+}
+
 impl DgramNet {
     pub fn new(act: &Activity) -> Self {
         DgramNet { inner: Arc::new(Mutex::new(DgramInner::default())), act: act.clone() }
@@ -695,4 +705,110 @@ pub fn runtime() -> tokio::runtime::Runtime {
         .start_paused(true)
         .build()
         .expect("runtime")
+}
+
+//------------ mock stream connector (multi_stream, dgram_stream) -------------
+
+type ConnResult = io::Result<MockStream>;
+
+#[derive(Default)]
+pub struct ConnectorInner {
+    /// connect() futures not yet resolved, oldest first
+    pending: VecDeque<tokio::sync::oneshot::Sender<ConnResult>>,
+    /// number of connect() calls
+    pub calls: usize,
+    /// peer ends of the streams handed out
+    pub peers: Vec<StreamPeer>,
+}
+
+/// `AsyncConnect` whose futures resolve when the harness says so.
+#[derive(Clone)]
+pub struct StreamConnector {
+    pub inner: Arc<Mutex<ConnectorInner>>,
+    pub act: Activity,
+}
+
+impl StreamConnector {
+    pub fn new(act: &Activity) -> Self {
+        StreamConnector { inner: Arc::new(Mutex::new(ConnectorInner::default())), act: act.clone() }
+    }
+    pub fn calls(&self) -> usize {
+        self.inner.lock().unwrap().calls
+    }
+    pub fn has_pending(&self) -> bool {
+        !self.inner.lock().unwrap().pending.is_empty()
+    }
+    /// Resolve the oldest pending connect() with a fresh stream / an error.
+    pub fn resolve(&self, ok: bool) -> bool {
+        let mut g = self.inner.lock().unwrap();
+        let tx = match g.pending.pop_front() {
+            Some(tx) => tx,
+            None => return false,
+        };
+        if ok {
+            let (ms, peer) = mock_stream(&self.act, 65536);
+            g.peers.push(peer);
+            drop(g);
+            let _ = tx.send(Ok(ms));
+        } else {
+            drop(g);
+            let _ = tx.send(Err(io::Error::new(io::ErrorKind::ConnectionRefused, "refused")));
+        }
+        true
+    }
+    pub fn peer(&self, c: usize) -> Option<StreamPeer> {
+        self.inner.lock().unwrap().peers.get(c).cloned()
+    }
+    pub fn npeers(&self) -> usize {
+        self.inner.lock().unwrap().peers.len()
+    }
+}
+
+impl AsyncConnect for StreamConnector {
+    type Connection = MockStream;
+    type Fut = Pin<Box<dyn Future<Output = ConnResult> + Send + Sync>>;
+    fn connect(&self) -> Self::Fut {
+        let (tx, rx) = tokio::sync::oneshot::channel();
+        {
+            let mut g = self.inner.lock().unwrap();
+            g.calls += 1;
+            g.pending.push_back(tx);
+        }
+        let act = self.act.clone();
+        Box::pin(counted(
+            async move {
+                match rx.await {
+                    Ok(r) => r,
+                    Err(_) => Err(io::Error::new(io::ErrorKind::Other, "connector dropped")),
+                }
+            },
+            &act,
+        ))
+    }
+}
+
+/// Configuration of the stream connections under multi_stream: their own
+/// timers are put beyond the horizon of a case.
+pub fn quiet_stream_config() -> stream::Config {
+    let mut cfg = stream::Config::new();
+    cfg.set_response_timeout(Duration::from_secs(595));
+    cfg.set_idle_timeout(Duration::from_secs(3600));
+    cfg
+}
+
+/// Peer side: find the request for question `q` on a stream and return its ID.
+pub fn id_of_request(peer: &StreamPeer, q: u64) -> Option<u64> {
+    let (frames, _) = peer.frames();
+    frames
+        .iter()
+        .map(|f| abstract_request(f))
+        .filter(|a| a["q"].as_u64() == Some(q))
+        .last()
+        .and_then(|a| a["id"].as_u64())
+}
+
+/// How often question `q` was written on a stream.
+pub fn times_written(peer: &StreamPeer, q: u64) -> usize {
+    let (frames, _) = peer.frames();
+    frames.iter().map(|f| abstract_request(f)).filter(|a| a["q"].as_u64() == Some(q)).count()
 }
